@@ -384,6 +384,77 @@ fn structured(now_hint: u64) -> Vec<Vec<u8>> {
     v
 }
 
+/// A tagged non-internal datagram for the backlog exploration (the tag makes every one distinct).
+fn tagged(i: u32) -> Vec<u8> {
+    let mut b = match i % 4 {
+        // SRT ACKACK, SRT keepalive, SRT shutdown-like control, an SRT data packet from the receiver
+        0 => vec![0x80, 0x06, 0, 0],
+        1 => vec![0x80, 0x01, 0, 0],
+        2 => vec![0x80, 0x07, 0, 0],
+        _ => vec![0x00, 0x00, 0x10, 0x00],
+    };
+    b.extend_from_slice(&[0u8; 4]);
+    b.extend_from_slice(&(0xB0000000u32 + i).to_be_bytes());
+    b.extend_from_slice(&[0x5a; 8]);
+    b
+}
+
+/// Backlog exploration: `n` datagrams are waiting on the uplink channel (what the reader tasks do
+/// while the loop is busy) when an arm runs; arms of kind `arm` are then repeated. Every queued
+/// datagram must reach the client, byte-identical, and nothing else may.
+fn backlog(env: &mut Env, base: &World, n: u32, arm: usize) -> Result<u64, Fail> {
+    while env.packet_rx.try_recv().is_ok() {}
+    let mut w = base.clone();
+    w.advance(3);
+    let want: Vec<Vec<u8>> = (0..n).map(tagged).collect();
+    for (i, b) in want.iter().enumerate() {
+        w.enqueue_uplink(env, i % 2, b);
+    }
+    let mut got: Vec<Vec<u8>> = Vec::new();
+    let mut own: Vec<Vec<u8>> = Vec::new();
+    let rounds = n as usize / 64 + 3;
+    for r in 0..rounds {
+        w.advance(1);
+        let out = match arm {
+            0 => {
+                let b = tagged(100_000 + r as u32);
+                own.push(b.clone());
+                w.arm_uplink(env, r % 2, &b)
+            }
+            1 => w.arm_client(env, &srt_data(20 + r as u32, false, 2, 64)),
+            _ => w.arm_housekeeping(env),
+        };
+        got.extend(out.client.iter().cloned());
+        got.extend(out.instant.iter().cloned());
+    }
+    while env.packet_rx.try_recv().is_ok() {}
+    let mut count: std::collections::BTreeMap<&Vec<u8>, u32> = Default::default();
+    for g in &got {
+        *count.entry(g).or_insert(0) += 1;
+    }
+    let arm_name = ["uplink", "client", "housekeeping"][arm];
+    let missing: Vec<usize> = want.iter().enumerate().filter(|(_, b)| !count.contains_key(b)).map(|(i, _)| i).collect();
+    if !missing.is_empty() {
+        return Err(Fail::new(
+            "queued-datagram-never-relayed",
+            format!("{n} datagrams waiting on the uplink channel, then {rounds} {arm_name} arms: queue positions {:?} never reached the client", &missing[..missing.len().min(8)]),
+        ));
+    }
+    for g in &got {
+        if !want.contains(g) && !own.contains(g) {
+            return Err(Fail::new("backlog-relayed-unknown-datagram", format!("{n} queued, {arm_name} arms: the client received a datagram nobody sent: {:02x?}", &g[..g.len().min(24)])));
+        }
+    }
+    // per-link order of the relayed copies follows the queue order
+    for l in 0..2usize {
+        let idx: Vec<usize> = got.iter().filter_map(|g| want.iter().position(|b| b == g)).filter(|i| i % 2 == l).collect();
+        if idx.windows(2).any(|p| p[1] < p[0]) {
+            return Err(Fail::new("backlog-relayed-out-of-order", format!("{n} queued, {arm_name} arms: datagrams read from link {l} reached the client out of order")));
+        }
+    }
+    Ok(hash_of(&(n, arm, got.len())))
+}
+
 pub fn run(tier: Tier) -> Report {
     let mut rep = Report::new();
     if let Err(e) = glue_fingerprint() {
@@ -444,6 +515,38 @@ pub fn run(tier: Tier) -> Report {
         }
         distinct.lock().unwrap().extend(local);
     });
+    progress("C09", "uplink-channel backlog exploration");
+    let max_backlog: u32 = if quick { 200 } else { 600 };
+    let bl_states: Vec<usize> = if quick { vec![4] } else { vec![3, 4, 5, 7] };
+    let bl_jobs: Vec<(usize, u32, usize)> = bl_states.iter().flat_map(|s| (0..=max_backlog).flat_map(move |n| (0..3usize).map(move |a| (*s, n, a)))).collect();
+    let bl_chunks: Vec<&[(usize, u32, usize)]> = bl_jobs.chunks(40).collect();
+    par_map(bl_chunks.len(), 16, |j| {
+        let mut env = Env::new();
+        let mut cur: Option<(usize, World)> = None;
+        let mut local: Vec<u64> = Vec::new();
+        for &(st, n, arm) in bl_chunks[j] {
+            if cur.as_ref().map(|c| c.0) != Some(st) {
+                cur = Some((st, build_state(&mut env, st)));
+            }
+            n_inj.fetch_add(n as u64 + 1, Ordering::Relaxed);
+            match catch_unwind(AssertUnwindSafe(|| backlog(&mut env, &cur.as_ref().unwrap().1, n, arm))) {
+                Ok(Ok(h)) => local.push(h),
+                Ok(Err(f)) => {
+                    *fail_n.lock().unwrap().entry(f.key.clone()).or_insert(0) += 1;
+                    let mut v = fails.lock().unwrap();
+                    if v.iter().filter(|x| x.key == f.key).count() < 3 {
+                        v.push(Violation { key: f.key.clone(), message: format!("state {}: {}", STATE_NAMES[st], f.msg), replay: json!({"exploration": "backlog", "state": st, "n": n, "arm": arm}) });
+                    }
+                }
+                Err(_) => {
+                    *fail_n.lock().unwrap().entry("uplink-path-panic".into()).or_insert(0) += 1;
+                    fails.lock().unwrap().push(Violation { key: "uplink-path-panic".into(), message: format!("backlog of {n} datagrams panicked"), replay: json!({"exploration": "backlog", "state": st, "n": n, "arm": arm}) });
+                }
+            }
+        }
+        distinct.lock().unwrap().extend(local);
+    });
+    rep.set("backlog", json!({"queued_datagrams": format!("0..={max_backlog}"), "arms": ["uplink", "client", "housekeeping"], "states": bl_states.iter().map(|s| STATE_NAMES[*s]).collect::<Vec<_>>(), "runs": bl_jobs.len()}));
     let n = n_inj.load(Ordering::Relaxed);
     rep.states = distinct.lock().unwrap().len() as u64;
     rep.transitions = n;
@@ -453,9 +556,9 @@ pub fn run(tier: Tier) -> Report {
     rep.set("sweep", json!({"type_codes": 65536, "lengths": sweep_lens, "tails": sweep_tails.len(), "structured_inputs_per_state_and_link": structured(T0).len()}));
     rep.samples.push(json!({"state": STATE_NAMES[5], "link": 0, "bytes_hex": "9100 0000 00001b58 00001c20 (SRTLA ACK: 7000 held by link 0, 7200 held by both)"}));
     rep.samples.push(json!({"state": STATE_NAMES[6], "link": 1, "bytes_hex": "9000 <now-20 as u64> (keepalive echo while a probe is outstanding)"}));
-    rep.set("oracle", json!("internal := type in {9201,9202,9210,9211,9100,9000}; client known and len>=2: not internal => client receives >=1 datagram, all byte-identical to the injected one; internal => nothing; no client => nothing; 0/1-byte datagrams change nothing; every non-registration datagram of >=2 bytes stamps last_received = now; the delivery-proof stamp of any link changes iff an SRTLA ACK retired a number from that link's log (arrival link first, else one other holder) or the arrival link got a keepalive echo of >=10 bytes while a probe was outstanding with 0 < now-ts <= 10000; nothing is sent on the uplinks except the immediate REG1 after REG_NGP; no panic (sweep runs in a child process)"));
+    rep.set("oracle", json!("internal := type in {9201,9202,9210,9211,9100,9000}; client known and len>=2: not internal => client receives >=1 datagram, all byte-identical to the injected one; internal => nothing; no client => nothing; 0/1-byte datagrams change nothing; every non-registration datagram of >=2 bytes stamps last_received = now; the delivery-proof stamp of any link changes iff an SRTLA ACK retired a number from that link's log (arrival link first, else one other holder) or the arrival link got a keepalive echo of >=10 bytes while a probe was outstanding with 0 < now-ts <= 10000; nothing is sent on the uplinks except the immediate REG1 after REG_NGP; no panic (sweep runs in a child process). Backlog: with n tagged non-internal datagrams waiting on the uplink channel (alternating links), repeated arms of one kind relay every one of them byte-identical, nothing else, per-link in queue order"));
     rep.assume("byte strings: all 65536 type codes at the listed lengths and tails, all lengths 0..=64 for 16 type codes x 4 tails, all tails over {00,7f,80,ff} up to 6 bytes, crafted ACK/NAK/keepalive/handshake datagrams referring to the link state; not random long inputs");
-    rep.assume("the select! glue is mirrored (world.rs) and bound by a call-order + token digest fingerprint; reader tasks / recvmmsg batching are not exercised (datagrams are injected as UplinkPacket)");
+    rep.assume("the select! glue is mirrored (world.rs) and bound by a call-order + token digest fingerprint; reader tasks / recvmmsg batching are not exercised (datagrams are injected as UplinkPacket, singly through the uplink arm or as a backlog on the channel that the arms' real drain_packet_queue works off)");
     for v in fails.lock().unwrap().drain(..) {
         rep.violations.push(v);
     }
@@ -467,6 +570,18 @@ pub fn run(tier: Tier) -> Report {
 
 pub fn replay(v: &Value) -> Result<(), String> {
     let st = v["state"].as_u64().ok_or("MACHINERY: no state")? as usize;
+    if v["exploration"] == "backlog" {
+        let n = v["n"].as_u64().ok_or("MACHINERY: no n")? as u32;
+        let arm = v["arm"].as_u64().unwrap_or(0) as usize;
+        let mut env = Env::new();
+        let base = build_state(&mut env, st);
+        let r1 = backlog(&mut env, &base, n, arm);
+        let r2 = backlog(&mut env, &base, n, arm);
+        if r1.as_ref().err().map(|f| f.key.clone()) != r2.as_ref().err().map(|f| f.key.clone()) {
+            return Err("MACHINERY: two replays disagree".into());
+        }
+        return r1.map(|_| ()).map_err(|f| format!("[{}] {}", f.key, f.msg));
+    }
     let idx = v["link"].as_u64().unwrap_or(0) as usize;
     let bytes: Vec<u8> = v["bytes"].as_array().ok_or("MACHINERY: no bytes")?.iter().map(|x| x.as_u64().unwrap_or(0) as u8).collect();
     let mut env = Env::new();
